@@ -78,7 +78,7 @@ Definition a_handle_perr (isreq : bool) (af : after) (a : ast) : list ast :=
   let ss_fin := sst_eqb (x_ss a) SDone || sst_eqb (x_ss a) SErrored in
   let talk := isreq && (sst_eqb (x_cs a) SStreamReq || sst_eqb (x_cs a) SDone) && negb ss_fin in
   let need := negb (sst_eqb (x_cs a) SErrored || ss_fin) in
-  let a1 := if talk then sx_ab true (sx_cs SErrored a) else a in
+  let a1 := if talk then sx_ab true (sx_ss SErrored (sx_cs SErrored a)) else a in
   if need then [a_emit_hook HkError (PPErr isreq af) a1] else a_perr_tail isreq af a1.
 Definition a_start_request_stream (late : bool) (a : ast) : list ast :=
   [sx_cr true a; sx_pc (if late then PConnStreamLate else PConnStreamHdr) a].
@@ -123,7 +123,8 @@ Definition a_state_stream_req (e : aev) (a : ast) : list ast :=
   | _ => a_crash a
   end.
 Definition a_cont_req_stream (a : ast) : list ast :=
-  let a1 := sx_cs SDone a in if sst_eqb (x_ss a1) SDone then a_flow_done a1 else [a1].
+  (if sst_eqb (x_ss a) SDone || sst_eqb (x_ss a) SErrored then a_finish_killed a else a_emit_hook HkError PKilled a) ::
+  (let a1 := sx_cs SDone a in if sst_eqb (x_ss a1) SDone then a_flow_done a1 else [a1]).
 Definition a_start_response_stream (a : ast) : list ast := [sx_cr true a; sx_ss SStreamResp a].
 Definition a_cbs_resp (a : ast) : list (bool * ast) :=
   (false, a) ::
